@@ -31,7 +31,7 @@ REQUIRED_THEOREMS = [
     'C06_covariate_row', 'C06_composed_independent', 'C06_pop_block_law', 'C06_covariate_row_law',
     'C06_composed_blocks_independent', 'C06_composed_joint_law', 'C06_composed_columns_cover',
     'C06_hetero_transform', 'C06_hetero_transform_counterexample', 'C06_hetero_transform_partial',
-    'C06_hetero_transform_legacy_counterexample',
+    'C06_hetero_transform_legacy_counterexample', 'C06_sample_joint_scored',
     'C06_lognormal_moments', 'C06_truncGauss_moments']
 RULE = ('exact replay: (a) the four error models and ReducedErrorModel, n_times 1..6, n_samples None/1..5, '
         'int seed and Generator seed (two consecutive calls on one Generator); (b) elementary population '
@@ -43,6 +43,9 @@ RULE = ('exact replay: (a) the four error models and ReducedErrorModel, n_times 
         'non-trivial = n_times>=2 and n_samples>=2 (error models), n_dim>=2 or >=2 sub-models or a '
         'covariate model (population models); distinct = distinct (class, sizes, seed kind)')
 ASSUMPTIONS = [
+    'the Lean model is purely functional: that a sampler leaves the caller\'s arrays untouched is checked on '
+    'chi only (C06.arguments_unchanged, and every reference value is computed from pristine copies while chi '
+    'receives the same arrays call after call)',
     'primitive samplers are ideal: Generator.standard_normal draws are i.i.d. N(0,1), distinct positions '
     'of one stream are independent, Generator.integers(0,n) is uniform, truncnorm.rvs(a,inf) in standard '
     'units is a standard normal conditioned on [a,inf)',
@@ -238,7 +241,9 @@ def run_em_case(ctx, chi, rng, i):
     ctx.case('em/%s/%s' % (m, cls),
              nontrivial=('em/%s/nT%d/nS%d/%s' % (m, len(yb), nS, cls)) if len(yb) >= 2 and nS >= 2
              else False, sample=inp)
-    c = call(lambda: em.sample(list(sig), yb, n_samples=n, seed=seed))
+    # the caller's arrays, reused for every call on chi; the reference side uses `sig` / `yb`
+    sig_w, yb_w = np.array(sig, float), np.array(yb, float)
+    c = call(lambda: em.sample(sig_w, yb_w, n_samples=n, seed=seed))
     mo, _ = em_model(ctx, m, sig, yb, n, np.random.default_rng(seed))
     ctx.branches.add('em:' + m + ':' + ('err' if isinstance(mo, str) else 'ok'))
     if isinstance(c, str):
@@ -259,7 +264,7 @@ def run_em_case(ctx, chi, rng, i):
             sig2 = np.abs(sig2[:(2 if m2 == 'CM' else 1)])
         em2 = em_classes(chi)[m2]()
         g = np.random.default_rng(seed)
-        c1 = call(lambda: em.sample(list(sig), yb, n_samples=n, seed=g))
+        c1 = call(lambda: em.sample(sig_w, yb_w, n_samples=n, seed=g))
         c2 = call(lambda: em2.sample(list(sig2), yb2, n_samples=n2, seed=g))
         h = np.random.default_rng(seed)
         mo1, _ = em_model(ctx, m, sig, yb, n, h)
@@ -270,6 +275,10 @@ def run_em_case(ctx, chi, rng, i):
         ctx.agree('C06.em.generator_consumed', float(g.standard_normal()), float(h.standard_normal()),
                   inp2, rtol=0.0)
         ctx.case('em/generator-seed', nontrivial='em/gen/%s-%s' % (m, m2))
+    if cls in ('inside', 'sigma=0', 'inside+ybar<=0'):
+        ctx.spec('C06.arguments_unchanged/' + EM_TAG[m],
+                 np.array_equal(sig_w, np.asarray(sig, float)) and np.array_equal(yb_w, np.asarray(yb, float)),
+                 inp, {'parameters_after_the_calls': sig_w, 'model_output_after_the_calls': yb_w})
 
 
 def run_reduced_em(ctx, chi, rng):
@@ -407,7 +416,104 @@ def gen_cov(rng, n_cov_tot, nS):
     return c, [list(r) for r in c]
 
 
-def psi_check(ctx, chi, mode, obj, subs, n_ids, params, cov, cov_rows, eta, inp, label):
+def documented_rows(subs, params0, cov_rows, n_rows):
+    """per sub-model the population parameters th[r, p, d] that row r is drawn with / scored with:
+    the given parameters, shifted linearly by the row's own covariates for the selected (p, d) pairs
+    (executable spec, computed from the PRISTINE copy of the caller's parameters)"""
+    out = []
+    off = co = 0
+    cov = None
+    if cov_rows:
+        cov = np.array(cov_rows, float)
+        if len(cov) == 1:
+            cov = np.broadcast_to(cov, (n_rows, cov.shape[1]))
+    for s in subs:
+        p = np.asarray(params0[off:off + s.n_top], float)
+        ppd = per_dim(s.kind, s.n_ids)
+        th = np.broadcast_to(p[:s.n_pop].reshape(ppd, s.n_dim), (n_rows, ppd, s.n_dim)).copy()
+        if s.n_cov:
+            beta = p[s.n_pop:].reshape(len(s.sel), s.n_cov)
+            for k, (pi, di) in enumerate(s.sel):
+                th[:, pi, di] += cov[:, co:co + s.n_cov] @ beta[k]
+        out.append(th)
+        off += s.n_top
+        co += s.n_cov
+    return out
+
+
+def documented_psi(subs, ths, eta):
+    """the models' own documented transform of sampled rows (heterogeneous columns: the drawn rows)"""
+    eta = np.asarray(eta, float)
+    out = eta.copy()
+    col = 0
+    for s, th in zip(subs, ths):
+        blk = eta[:, col:col + s.n_dim]
+        with np.errstate(all='ignore'):
+            if s.kind == 'Gn':
+                out[:, col:col + s.n_dim] = th[:, 0, :] + th[:, 1, :] * blk
+            elif s.kind == 'Ln':
+                out[:, col:col + s.n_dim] = np.exp(th[:, 0, :] + th[:, 1, :] * blk)
+            elif s.kind == 'P':
+                out[:, col:col + s.n_dim] = th[:, 0, :]
+        col += s.n_dim
+    return out
+
+
+def documented_joint_logpdf(subs, ths, x):
+    """log of the product density the Lean theorems identify as the law of the sampled rows
+    (C06_composed_joint_law and the per-kind law theorems); None when a heterogeneous block is present"""
+    x = np.asarray(x, float)
+    tot = 0.0
+    col = 0
+    for s, th in zip(subs, ths):
+        blk = x[:, col:col + s.n_dim]
+        with np.errstate(all='ignore'):
+            if s.kind == 'Gc':
+                tot += float(np.sum(stats.norm.logpdf(blk, th[:, 0, :], th[:, 1, :])))
+            elif s.kind in ('Gn', 'Ln'):
+                tot += float(np.sum(stats.norm.logpdf(blk)))
+            elif s.kind == 'Lc':
+                tot += float(np.sum(stats.norm.logpdf(np.log(blk), th[:, 0, :], th[:, 1, :]) - np.log(blk)))
+            elif s.kind == 'T':
+                tot += float(np.sum(stats.norm.logpdf(blk, th[:, 0, :], th[:, 1, :])
+                                    - np.log(1 - stats.norm.cdf(-th[:, 0, :] / th[:, 1, :]))))
+            elif s.kind == 'P':
+                tot += 0.0 if np.all(blk == th[:, 0, :]) else -math.inf
+            else:
+                return None
+        col += s.n_dim
+    return tot
+
+
+def chi_ll(obj, mode, params, x, cov, n_rows):
+    cvf = None if cov is None else np.broadcast_to(np.atleast_2d(cov), (n_rows, np.atleast_2d(cov).shape[1]))
+    with np.errstate(all='ignore'):
+        if mode == 'elem':
+            return float(obj.compute_log_likelihood(params, x))
+        if mode == 'cov':
+            return float(obj.compute_log_likelihood(params, x, cvf))
+        return float(obj.compute_log_likelihood(params, x, covariates=cvf))
+
+
+def joint_score_check(ctx, chi, mode, obj, subs, params, params0, cov, cov_rows, x, inp):
+    """the log-likelihood of the sampled rows TOGETHER is the log of the product density the rows are
+    drawn from (each row with its own, covariate-shifted parameters) — the scored density of several
+    individuals, not only of one (seeded change C06-4)"""
+    x = np.asarray(x, float)
+    if x.ndim != 2 or len(x) == 0 or any(s.kind == 'H' for s in subs):
+        return
+    ths = documented_rows(subs, params0, cov_rows, len(x))
+    want = documented_joint_logpdf(subs, ths, x)
+    got = call(lambda: chi_ll(obj, mode, params, x, cov, len(x)))
+    if inp.get('class') != 'inside':
+        return
+    ctx.spec('C06.joint_score_of_samples/' + mode,
+             not isinstance(got, str) and core.close(got, want, rtol=1e-8, atol=1e-9), inp,
+             {'samples': as_rows(x), 'chi_log_likelihood_of_the_sampled_rows': got,
+              'log_density_of_the_sampled_law': want})
+
+
+def psi_check(ctx, chi, mode, obj, subs, n_ids, params, params0, cov, cov_rows, eta, inp, label):
     """compute_individual_parameters of the sampled eta. For a heterogeneous sub-model the Lean model
     carries both variants (legacy: the stored rows are returned whatever was drawn; intended: the drawn
     rows); the harness decides which one chi matches."""
@@ -426,9 +532,27 @@ def psi_check(ctx, chi, mode, obj, subs, n_ids, params, cov, cov_rows, eta, inp,
     rows = cov_rows if len(cov_rows) != 1 else cov_rows * len(eta)
 
     def model(variant):
-        return ctx.model('C06.pop.psi', mode, [s.wire() for s in subs], n_ids, [float(v) for v in params],
+        return ctx.model('C06.pop.psi', mode, [s.wire() for s in subs], n_ids, [float(v) for v in params0],
                          [[float(v) for v in r] for r in rows], as_rows(eta), variant)[0]
     cr = as_rows(c)
+    # the property for the models with a transform of their own: sample(theta) followed by
+    # compute_individual_parameters(theta, eta) — the SAME array theta, as a caller writes it — is the
+    # documented transform of eta at the parameters the caller passed
+    if inp.get('class') == 'inside' and not isinstance(cr, str) and len(cr) == len(eta):
+        hc = set()
+        col = 0
+        for sm in subs:
+            if sm.kind == 'H':
+                hc |= set(range(col, col + sm.n_dim))
+            col += sm.n_dim
+        keep = [j for j in range(eta.shape[1]) if j not in hc]
+        want = documented_psi(subs, documented_rows(subs, params0, cov_rows, len(eta)), eta)
+        ctx.spec('C06.sample_then_transform/' + mode,
+                 core.close([[row[j] for j in keep] for row in cr],
+                            [[float(row[j]) for j in keep] for row in want]), inp,
+                 {'eta': as_rows(eta), 'after_compute_individual_parameters': cr,
+                  'documented_transform_at_the_given_parameters': as_rows(want),
+                  'parameter_array_after_sample': [float(v) for v in np.asarray(params).flatten()]})
     # the code as it is (7e1e7bd): drawn rows are handed on unless exactly n_ids rows were drawn
     ctx.agree('C06.pop.psi/' + label + ('/hetero' if has_h else ''), cr, model('repaired'), inp)
     if not has_h:
@@ -505,8 +629,13 @@ def run_pop_case(ctx, chi, rng, i):
         return   # truncnorm with scale 0: a = -mu/0 is outside the documented domain
     seed = int(rng.integers(0, 2 ** 31))
     label = mode + '/' + '+'.join(s.kind + ('c%d' % s.n_cov if s.n_cov else '') for s in subs)
+    # `params` / `cov` are the caller's arrays, REUSED for every call on chi below (as user code does);
+    # everything on the reference side (Lean model, documented densities) uses the pristine copies
+    params = np.array(params, float)
+    params0 = params.copy()
+    cov0 = None if cov is None else np.array(cov, float).copy()
     inp = {'mode': mode, 'subs': [s.wire() for s in subs], 'n_ids': n_ids, 'n_samples': n,
-           'parameters': params, 'covariates': cov_rows, 'seed': seed}
+           'parameters': params0, 'covariates': cov_rows, 'seed': seed, 'class': cls}
     nontriv = (mode != 'elem' and (len(subs) >= 2 or n_cov_tot > 0)) or subs[0].n_dim >= 2
     ctx.case('pop/%s/%s' % (mode, cls), nontrivial=('pop/%s/nS%s/%s' % (label, n, cls)) if nontriv else False,
              sample=inp)
@@ -516,7 +645,7 @@ def run_pop_case(ctx, chi, rng, i):
         chi_params = np.asarray(params).reshape(per_dim(subs[0].kind, n_ids), subs[0].n_dim)
         inp['layout'] = 'matrix'
     c = call(lambda: chi_pop_sample(obj, mode, chi_params, n, seed, cov))
-    mo, plan = pop_model(ctx, mode, subs, n_ids, n, params, cov_rows, seed,
+    mo, plan = pop_model(ctx, mode, subs, n_ids, n, params0, cov_rows, seed,
                          np.random.default_rng(seed), from_gen=False)
     ctx.branches.add('pop:%s:%s' % (mode, 'err' if isinstance(mo, str) else 'ok'))
     if isinstance(c, str):
@@ -538,20 +667,28 @@ def run_pop_case(ctx, chi, rng, i):
         return
     ctx.spec('C06.shape/pop/' + mode, np.asarray(c).shape == (nS, sum(s.n_dim for s in subs)), inp,
              {'shape': np.asarray(c).shape})
-    psi_check(ctx, chi, mode, obj, subs, n_ids, params, cov, cov_rows, c, inp, mode)
+    psi_check(ctx, chi, mode, obj, subs, n_ids, params, params0, cov, cov_rows, c, inp, mode)
+    joint_score_check(ctx, chi, mode, obj, subs, params, params0, cov, cov_rows, c, inp)
     # Generator as seed: advanced, not restarted (two consecutive calls)
     if i % 3 == 0 and cls == 'inside':
         g = np.random.default_rng(seed)
         c1 = call(lambda: chi_pop_sample(obj, mode, params, n, g, cov))
         c2 = call(lambda: chi_pop_sample(obj, mode, params, n, g, cov))
         h = np.random.default_rng(seed)
-        mo1, _ = pop_model(ctx, mode, subs, n_ids, n, params, cov_rows, None, h, from_gen=True)
-        mo2, _ = pop_model(ctx, mode, subs, n_ids, n, params, cov_rows, None, h, from_gen=True)
+        mo1, _ = pop_model(ctx, mode, subs, n_ids, n, params0, cov_rows, None, h, from_gen=True)
+        mo2, _ = pop_model(ctx, mode, subs, n_ids, n, params0, cov_rows, None, h, from_gen=True)
         ctx.agree('C06.pop.generator_first/' + mode, as_rows(c1), mo1, inp)
         ctx.agree('C06.pop.generator_advanced/' + mode, as_rows(c2), mo2, inp)
         ctx.agree('C06.pop.generator_consumed', float(g.standard_normal()), float(h.standard_normal()),
                   inp, rtol=0.0)
         ctx.case('pop/generator-seed', nontrivial='pop/gen/' + label)
+    if cls == 'inside':
+        # the caller's arrays are still what the caller passed (a sampler that overwrites them makes
+        # every later call — transform, score, next sample — use other parameters than the given ones)
+        same = np.array_equal(params, params0) and (cov is None or np.array_equal(np.asarray(cov, float), cov0))
+        ctx.spec('C06.arguments_unchanged/pop/' + mode, same, inp,
+                 {'parameters_passed': [float(v) for v in params0],
+                  'parameters_after_the_calls': [float(v) for v in params]})
 
 
 def run_reduced_pop(ctx, chi, rng):
@@ -815,7 +952,11 @@ def pop_law_one(ctx, chi, rng, n, rep, kind):
             seed = int(rng.integers(0, 2 ** 31))
             small = rep % 4 >= 2
             tag = POP_TAG[kind]
-            inp = {'model': tag, 'n_dim': n_dim, 'parameters': params, 'n_samples': n, 'seed': seed}
+            # `params` is the caller's array, reused for every call on chi; densities / moments are
+            # evaluated at the pristine copy `params0`
+            params = np.array(params, float)
+            params0 = params.copy()
+            inp = {'model': tag, 'n_dim': n_dim, 'parameters': params0, 'n_samples': n, 'seed': seed}
             if small:
                 # many small calls (n_samples 2) on ONE Generator
                 g = np.random.default_rng(seed)
@@ -826,22 +967,24 @@ def pop_law_one(ctx, chi, rng, n, rep, kind):
             else:
                 x = np.asarray(model.sample(params, n_samples=n, seed=seed), float)
             n = len(x)
+            ctx.spec('C06.arguments_unchanged/' + tag, np.array_equal(params, params0), inp,
+                     {'parameters_passed': params0, 'parameters_after_sample': params.copy()})
             ctx.case('law/pop/' + kind)
             if kind == 'P':
-                ok = bool(np.all(x == params[None, :]))
+                ok = bool(np.all(x == params0[None, :]))
                 with np.errstate(all='ignore'):
-                    ll = model.compute_log_likelihood(params, x[:5])
+                    ll = model.compute_log_likelihood(params0, x[:5])
                 ctx.spec('C06.sampler_law/' + tag, ok and ll == 0, inp, {'ll': ll})
                 return
             if kind == 'H':
-                rows = params.reshape(n_ids, n_dim)
+                rows = params0.reshape(n_ids, n_dim)
                 idx = [int(np.argmin(np.sum(np.abs(rows - r), axis=1))) for r in x]
                 exact = bool(np.all(rows[idx] == x))
                 counts = np.bincount(idx, minlength=n_ids)
                 p = 1.0 / n_ids
                 okc = bool(np.all(np.abs(counts - n * p) <= 6.5 * math.sqrt(n * p * (1 - p))))
                 with np.errstate(all='ignore'):
-                    ll = model.compute_log_likelihood(params, rows)
+                    ll = model.compute_log_likelihood(params0, rows)
                 ctx.spec('C06.sampler_law/' + tag, exact and okc and ll == 0, inp,
                          {'counts': counts, 'rows_are_individuals': exact, 'll': ll})
                 if small:
@@ -852,12 +995,12 @@ def pop_law_one(ctx, chi, rng, n, rep, kind):
                     ctx.spec('C06.independence/' + tag, abs(same - p) <= 6.5 * se, inp,
                              {'fraction_of_calls_with_equal_rows': same, 'expected': p})
                 return
-            mus, sds = params[:n_dim], params[n_dim:]
+            mus, sds = params0[:n_dim], params0[n_dim:]
             ref = np.exp(mus) if kind in ('Lc', 'Ln') else np.abs(mus) + 0.5
             if kind in ('Gn', 'Ln'):
                 # eta against the density the non-centred log-likelihood scores
                 for d in range(n_dim):
-                    lp = pop_logpdf_1d(model, params, d, np.zeros(n_dim))
+                    lp = pop_logpdf_1d(model, params0, d, np.zeros(n_dim))
                     r = law_check(x[:, d], lp, -10, 10, normalise=True)
                     ctx.spec('C06.sampler_law/%s/eta' % tag, r['ks_ok'] and r['var_ok'] and r['mean_ok'],
                              dict(inp, dim=d), r)
@@ -865,14 +1008,14 @@ def pop_law_one(ctx, chi, rng, n, rep, kind):
                 psi = np.asarray(model.compute_individual_parameters(params, x), float)
                 twin = build_elem(chi, kind[0] + 'c', n_dim, n_ids)
                 for d in range(n_dim):
-                    column_law(ctx, tag + '/psi', psi[:, d], twin, params, d, ref, kind[0] + 'c', mus[d],
+                    column_law(ctx, tag + '/psi', psi[:, d], twin, params0, d, ref, kind[0] + 'c', mus[d],
                                sds[d], inp)
                 if n_dim == 2:
                     rho = float(stats.spearmanr(psi[:, 0], psi[:, 1])[0])
                     ctx.spec('C06.independence/' + tag, abs(rho) <= 6.5 / math.sqrt(n - 1), inp, {'rho': rho})
                 return
             for d in range(n_dim):
-                column_law(ctx, tag, x[:, d], model, params, d, ref, kind, mus[d], sds[d], inp)
+                column_law(ctx, tag, x[:, d], model, params0, d, ref, kind, mus[d], sds[d], inp)
             if n_dim == 2:
                 rho = float(stats.spearmanr(x[:, 0], x[:, 1])[0])
                 ctx.spec('C06.independence/' + tag, abs(rho) <= 6.5 / math.sqrt(n - 1), inp, {'rho': rho})
@@ -886,7 +1029,7 @@ def pop_law_one(ctx, chi, rng, n, rep, kind):
                 ok = all(abs(b - e) <= 6.5 * math.sqrt(max(e * (1 - e), 1e-12) / n) for b, e in zip(below, expect))
                 ctx.spec('C06.support/' + tag, ok, inp, {'fraction_below_mu': below, 'expected': expect})
             if kind in ('Lc', 'T'):
-                ms = np.asarray(model.get_mean_and_std(params), float)
+                ms = np.asarray(model.get_mean_and_std(params0), float)
                 if ms.shape == (2, n_dim):
                     for d in range(n_dim):
                         se = ms[1, d] / math.sqrt(n)
@@ -948,9 +1091,12 @@ def composed_law_one(ctx, chi, rng, n, rep):
         cb = -np.sign(ca) * rng.uniform(0.4, 1.0, n_cov)
         cov = np.where((np.arange(n) % 2 == 0)[:, None], ca[None, :], cb[None, :])
         groups = [np.arange(0, n, 2), np.arange(1, n, 2)]
+    params = np.array(params, float)
+    params0 = params.copy()          # reference side; `params` is reused for every call on chi
+    cov0 = None if cov is None else cov.copy()
     x = np.asarray(obj.sample(params, n_samples=n, seed=seed, covariates=cov), float)
     label = '+'.join(s.kind + ('c%d' % s.n_cov if s.n_cov else '') for s in subs)
-    inp = {'model': 'ComposedPopulationModel(' + label + ')', 'parameters': params, 'n_samples': n,
+    inp = {'model': 'ComposedPopulationModel(' + label + ')', 'parameters': params0, 'n_samples': n,
            'seed': seed, 'covariates': None if cov is None else [list(cov[0]), list(cov[1])]}
     ctx.case('law/composed/' + label, nontrivial='law/composed/%s/cov%d' % (label, cov_mode))
     all_float = all(s.kind in FLOAT for s in subs)
@@ -958,7 +1104,7 @@ def composed_law_one(ctx, chi, rng, n, rep):
     off = col = co = 0
     cols = []
     for s in subs:
-        p = params[off:off + s.n_top]
+        p = params0[off:off + s.n_top]
         if s.kind in FLOAT:
             for gi, g in enumerate(groups):
                 if not s.n_cov and gi > 0:
@@ -967,7 +1113,7 @@ def composed_law_one(ctx, chi, rng, n, rep):
                 cv_own = None
                 mu_g, sd_g = p[0], p[1]
                 if s.n_cov:
-                    cv_own = cov[g[0]][None, co:co + s.n_cov]
+                    cv_own = cov0[g[0]][None, co:co + s.n_cov]
                     mu_g = p[0] + float(cv_own[0] @ p[s.n_pop:s.n_pop + s.n_cov])
                     sd_g = p[1] + float(cv_own[0] @ p[s.n_pop + s.n_cov:s.n_pop + 2 * s.n_cov])
                 tag = 'Composed/' + POP_TAG[s.kind] + ('/covariate' if s.n_cov else '')
@@ -975,9 +1121,9 @@ def composed_law_one(ctx, chi, rng, n, rep):
                 if all_float:
                     # the density the COMPOSED log-likelihood scores for this column (one individual,
                     # the other columns held fixed), conditional on the full covariate row of the group
-                    ref = composed_ref(subs, params, None if cov is None else cov[g[0]])
-                    cvf = None if cov is None else cov[g[0]][None, :]
-                    lp = pop_logpdf_1d(obj, params, col, ref, cvf)
+                    ref = composed_ref(subs, params0, None if cov0 is None else cov0[g[0]])
+                    cvf = None if cov0 is None else cov0[g[0]][None, :]
+                    lp = pop_logpdf_1d(obj, params0, col, ref, cvf)
                 else:
                     ref = np.array([0.0 if s.kind in ('Gn', 'Ln') else
                                     (math.exp(mu_g) if s.kind == 'Lc' else abs(mu_g) + 0.5)])
@@ -999,6 +1145,47 @@ def composed_law_one(ctx, chi, rng, n, rep):
         off += s.n_top
         col += s.n_dim
         co += s.n_cov
+    ctx.spec('C06.arguments_unchanged/Composed', np.array_equal(params, params0)
+             and (cov is None or np.array_equal(cov, cov0)), inp,
+             {'parameters_passed': params0, 'parameters_after_sample': params.copy()})
+    cov_rows = [] if cov0 is None else [list(r) for r in cov0[:6]]
+    if not any(s.kind == 'H' for s in subs):
+        # the score of SEVERAL sampled rows together (each with its own covariates) is the log of the
+        # product density the rows are drawn from
+        for m in (2, 6):
+            ths = documented_rows(subs, params0, [r for r in cov_rows[:m]], m)
+            want = documented_joint_logpdf(subs, ths, x[:m])
+            got = chi_ll(obj, 'composed', params, x[:m], None if cov is None else cov[:m], m)
+            ctx.spec('C06.joint_score_of_samples/Composed', core.close(got, want, rtol=1e-8, atol=1e-9),
+                     dict(inp, rows=m), {'samples': as_rows(x[:m]), 'chi_log_likelihood_of_the_sampled_rows': got,
+                                         'log_density_of_the_sampled_law': want})
+    # non-centred sub-models: the model's own transform of the sampled eta (same parameter array)
+    # against the law of the centred model with the given (covariate-shifted) parameters
+    if any(s.kind in ('Gn', 'Ln') for s in subs):
+        psi = np.asarray(obj.compute_individual_parameters(params, x, covariates=cov), float)
+        colp = cop = offp = 0
+        for s in subs:
+            pp = params0[offp:offp + s.n_top]
+            if s.kind in ('Gn', 'Ln'):
+                for gi, g in enumerate(groups):
+                    if not s.n_cov and gi > 0:
+                        continue
+                    ys = psi[g, colp] if s.n_cov else psi[:, colp]
+                    mu_g, sd_g = pp[0], pp[1]
+                    if s.n_cov:
+                        cvo = cov0[g[0]][cop:cop + s.n_cov]
+                        mu_g = pp[0] + float(cvo @ pp[s.n_pop:s.n_pop + s.n_cov])
+                        sd_g = pp[1] + float(cvo @ pp[s.n_pop + s.n_cov:s.n_pop + 2 * s.n_cov])
+                    zs = ((np.log(ys) if s.kind == 'Ln' else ys) - mu_g) / sd_g
+                    grid = np.linspace(-6, 6, 1201)
+                    ks = ks_against_grid(zs, grid, stats.norm.cdf(grid))
+                    ctx.spec('C06.sampler_law/Composed/%s/psi' % POP_TAG[s.kind], ks <= dkw(len(zs)) + 1e-4,
+                             dict(inp, column=colp, group=gi),
+                             {'ks': ks, 'ks_thr': dkw(len(zs)), 'standardised_mean': float(np.mean(zs)),
+                              'standardised_sd': float(np.std(zs))})
+            offp += s.n_top
+            colp += s.n_dim
+            cop += s.n_cov
     # independently across sub-models (within one covariate group)
     g = groups[0]
     for a in range(len(cols)):
